@@ -42,6 +42,10 @@ where
       || *self.was_completed.read().unwrap()
   }
 
+  pub(crate) fn observer_count(&self) -> usize {
+    self.subject.observer_count()
+  }
+
   pub fn next(&self, item: Item) {
     if self.is_terminated() {
       return;
